@@ -12,6 +12,7 @@ import (
 	"github.com/NethermindEth/juno/core"
 	"github.com/NethermindEth/juno/core/felt"
 	"github.com/NethermindEth/juno/starknet"
+	junosync "github.com/NethermindEth/juno/sync"
 	"verif/harness/lib"
 )
 
@@ -115,6 +116,22 @@ func (a *snAdapter) PreConfirmedBlockByNumber(ctx context.Context, n uint64, id 
 
 func (a *snAdapter) PreConfirmedBlockLatest(ctx context.Context, id string, known uint64) (starknet.PreConfirmedUpdate, uint64, error) {
 	return nil, 0, errors.New("not implemented")
+}
+
+// feederDS is the real feeder-gateway data source with one addition: when BlockByNumber fails AFTER
+// the block itself was served (a class fetch failed), the trace says so — the synchroniser never got
+// that answer.
+type feederDS struct {
+	junosync.DataSource
+	rec *recorder
+}
+
+func (d *feederDS) BlockByNumber(ctx context.Context, n uint64) (junosync.CommittedBlock, error) {
+	cb, err := d.DataSource.BlockByNumber(ctx, n)
+	if err != nil {
+		d.rec.add(entry{Kind: eServeErr, Req: n, Fault: "data-source-error(class fetch / cancelled)"})
+	}
+	return cb, err
 }
 
 // checkClasses: every class declared by a block of the (converged) chain is in the node's state
